@@ -90,11 +90,10 @@ def varSpecified (trk : Nat → Bool) (m : Mem) (sl ix : Nat) : Bool :=
   !trk ix || (match m.slots[sl]? with | some (.live _ (some _)) => true | _ => false)
 
 def xvalid (trk : Nat → Bool) (nalt : Nat) (s : St) (t : Bool) : XOp → Bool
-  | .emplace j _ | .emplaceCopy j _ | .emplaceMove j _ => j < nalt
+  | .emplace j _ | .emplaceCopy j _ | .emplaceMove j _ | .assignCopy j _ | .assignMove j _ => j < nalt
   | .optAssignCopy _ | .optAssignMove _ => 1 < nalt
   | .reset => 0 < nalt
   | .use => varSpecified trk s.mem (baseOf 1 t) (s.sz t)
-  | .assignOwn => false   -- excluded: known finding F-C03-variant-assign-own-alternative
   | _ => true
 
 inductive XReach (k : Kind) (trk : Nat → Bool) (nalt : Nat) : St → Prop where
